@@ -47,6 +47,13 @@ def mode_tables(ctx, f):
             rv = st['rv']
             t = f.term(rv['o']) if rv['k'] == 'use' else f._def_term(('assign', bi, si, rv, []), 0, frozenset())
             alts = []
+            # `x?` on a helper's Result (virtually inlined): look at the Ok(..) definitions of the phi
+            unwrapped = False
+            while t[0] in ('try', 'ref', 'deref') or (t[0] == 'field' and t[2] == '0' and t[1][0] == 'downcast'):
+                t = t[1] if t[0] != 'field' else t[1][1]
+                unwrapped = True
+                if t[0] == 'call' and t[1].endswith('Try::branch') and t[2]:
+                    t = t[2][0]
             if t[0] == 'agg' and t[1].endswith('NodeMode'):
                 alts.append((t[2], bi))
             elif t[0] == 'phi':
@@ -54,6 +61,12 @@ def mode_tables(ctx, f):
                     if d[-1]:
                         continue
                     dt = f._def_term(d, 0, frozenset([t[1]]))
+                    if dt[0] == 'agg' and dt[1].endswith('result::Result'):
+                        if dt[2] != 'Ok':
+                            continue
+                        dt = strip(dt[3][0][1])
+                    elif dt[0] == 'call' and dt[1].endswith('FromResidual::from_residual'):
+                        continue
                     if dt[0] == 'agg' and dt[1].endswith('NodeMode'):
                         alts.append((dt[2], d[1]))
                     else:
@@ -93,16 +106,11 @@ def r_tables(ctx):
             if 'OldNodeMode' in p and p.endswith('::try_from'):
                 tf = g
         if ctx.need(tf is not None, 'U1', 'TryFrom<u8> for OldNodeMode'):
-            table = {}
-            for b, k, t in paths.ret_assigns(tf):
-                if k != 'ok':
-                    continue
-                v = strip(dict(t[3])['0'])
-                for s, e in controlling_conds(tf, b):
-                    if e[0] == 'bool' and e[2] and e[1][0] == 'binop' and e[1][1] == 'Eq':
-                        c = const_eval(e[1][3])
-                        table[v[2]] = c if c is not None else const_eval(e[1][2])
-            ctx.check(table == ref['old_node_mode'], 'U1', 'OldNodeMode/try_from', tf.loc(), '%s' % table, 'TryFrom<u8> for OldNodeMode maps %s; v0.4 layout %s' % (table, ref['old_node_mode']))
+            from props.C16 import enum_table
+            table = enum_table(tf)
+            want = {v: k for k, v in ref['old_node_mode'].items()}
+            ctx.check(table == {i: want.get(i, 'Err') for i in range(0, 8)} | {255: 'Err'}, 'U1', 'OldNodeMode/try_from', tf.loc(), '%s' % {k: v for k, v in table.items() if v != 'Err'},
+                      'TryFrom<u8> for OldNodeMode maps %s; v0.4 layout %s' % (table, ref['old_node_mode']))
     old = ref['old_node_mode']
     inv = {v: k for k, v in old.items()}
     tabs = mode_tables(ctx, f)
